@@ -27,7 +27,8 @@ const (
 	kLeaf = iota
 	kPStruct
 	kSliceStruct
-	kStruct // a struct by value: only inside elements of slices of structs (T0 itself is pointerified)
+	kArrayStruct // an array of structs not behind a pointer: only inside elements of slices of structs
+	kStruct      // a struct by value: only inside elements of slices of structs (T0 itself is pointerified)
 )
 
 type choice struct {
@@ -183,6 +184,12 @@ func (m *modeler) fromStruct(t reflect.Type, prefix []string) []*mfield {
 			f.kind = kSliceStruct
 			f.rtype = ft
 			f.children = m.fromStruct(ft.Elem(), nil)
+		case ft.Kind() == reflect.Array && isPlainStruct(ft.Elem()):
+			// (T0 itself never has one: Pointerify turns [N]S into *[N]S,
+			// which the transformer does not recurse into)
+			f.kind = kArrayStruct
+			f.rtype = ft
+			f.children = m.fromStruct(ft.Elem(), nil)
 		case isPlainStruct(ft):
 			f.kind = kStruct
 			f.children = m.fromStruct(ft, f.origin)
@@ -215,7 +222,7 @@ func (m *modeler) apply(sp ManglerSpec, fs []*mfield, top bool) ([]*mfield, erro
 			return nil, err
 		}
 		for _, o := range outs {
-			if recurses(sp.Kind) && (o.kind == kPStruct || o.kind == kSliceStruct || o.kind == kStruct) {
+			if recurses(sp.Kind) && (o.kind == kPStruct || o.kind == kSliceStruct || o.kind == kStruct || o.kind == kArrayStruct) {
 				ch, err := m.apply(sp, o.children, false)
 				if err != nil {
 					return nil, err
@@ -636,7 +643,7 @@ func (m *modeler) leaves(fs []*mfield, keyPath []string, choices []choice, out *
 			}
 			continue
 		}
-		if f.kind == kSliceStruct {
+		if f.kind == kSliceStruct || f.kind == kArrayStruct {
 			// element fields are located by key as well
 			var sub []tleaf
 			if err := m.leaves(f.children, kp, ch, &sub); err != nil {
